@@ -9,6 +9,7 @@ mod rp;
 mod gen;
 mod sp;
 mod conn;
+mod writer;
 
 use std::collections::HashMap;
 use std::path::PathBuf;
@@ -84,6 +85,11 @@ fn main() {
             conn::run_replay(&prop, args.num("seed", 1), stdin.lock(), args.log(), &mut rep, args.num("threads", 12) as usize, &known);
             rep.finish(args.out().as_deref())
         },
+        "writer-replay" => {
+            let mut rep = Report::new("C10");
+            writer::run_replay("C10", args.num("seed", 1), stdin.lock(), args.log(), &mut rep);
+            rep.finish(args.out().as_deref())
+        },
         "sp-trace" => {
             let prop = args.get("prop").unwrap_or("C02").to_string();
             let mut rep = Report::new(&prop);
@@ -112,6 +118,7 @@ fn main() {
                 "sp-edge" => sp::replay_file(&prop, r, &mut rep),
                 "sp-bytes" => sp::replay_bytes(&prop, r, &mut rep),
                 "conn-beh" => conn::replay_file(&prop, r, &mut rep),
+                "writer-beh" => writer::replay_file(&prop, r, &mut rep),
                 "bufsize" => vec_codec::sweep_bufsize(&mut rep, r["n"].as_u64().unwrap_or(0) as usize),
                 k => { eprintln!("replay kind {k} is not supported by this build"); std::process::exit(2) },
             }
